@@ -368,7 +368,7 @@ static void set_local_std(void) { snprintf(K.k_local, sizeof K.k_local, "u%s%s",
 
 static const char *EXTS[] = { "", "a", "A", "a-", "a-b", "A-B", "a-b-", "a-b-c", "a-b-c-d", "a.b", "a:b", "a-B.c", "-", "--", "a--b",
   "-a", "default", "a-default", "A-DEFAULT", "a-b-default", "adefault", "a/b", "../x", "a/../b", "a-x", "x", "x-y-z", "a-b.",
-  ".", "..", "a-/b", "b", "a-bb", "aa", "a-default-default", "owner", "a-owner", "a-b-owner", "a-DeFault", "a-b/", "/", "a-\x01", "a b" };
+  ".", "..", "a-/b", "b", "a-bb", "aa", "a-default-default", "owner", "a-owner", "a-b-owner", "a-DeFault", "a-b/", "/", "a-\x01", "a b", "Z", "@Z[`{", "a-Z-default" };
 #define NEXTS (sizeof EXTS / sizeof EXTS[0])
 
 static const char *SEARCH7[] = { ".qmail-a", ".qmail-a-default", ".qmail-default", ".qmail-a-b", ".qmail-a-b-default", ".qmail-a-", ".qmail-a:b" };
@@ -424,7 +424,7 @@ static void msg_variant(int v) {
 static uint64_t g_id; static int g_shard, g_nshards;
 static int mine(void) { return (int)(g_id++ % g_nshards) == g_shard; }
 
-static const int FMODES[] = { 0600, 0600, 0600, 0644, 0622, 0602, 0700, 0711, 0755, 0722, 0640, 0660, 0000, 0100, 0200, 04600, 0606, 0666 };
+static const int FMODES[] = { 0600, 0600, 0600, 0644, 0610, 0601, 0622, 0602, 0700, 0711, 0755, 0722, 0640, 0660, 0000, 0100, 0200, 04600, 0606, 0666 };
 #define NFMODES (sizeof FMODES / sizeof FMODES[0])
 static const char *HMODES[] = { "700", "700", "700", "755", "750", "770", "702", "777", "1700", "1755", "1777", "707", "0", "2700", "722", "x" };
 #define NHMODES (sizeof HMODES / sizeof HMODES[0])
